@@ -110,6 +110,11 @@ class RequireWalker(lua.BaseASTWalker):
 
             yield (require_path, use_game_loop, self._tokens[node.start_pos])
 
+        else:
+            # Not a require() call itself, but it may contain some.
+            for t in lua._default_node_handler(self, node):
+                yield t
+
 
 def _evaluate_require(ast, file_path, package_lua, lua_path=None):
     """Evaluate require() statements in a Lua AST.
